@@ -114,10 +114,13 @@ impl<'a> Evaluator<'a> {
             In([expr, list]) => {
                 let expr = self.next(*expr).eval(chunk)?;
                 let values = self.next(*list).eval_list(chunk)?;
-                let mut in_ = expr.eq(values.array_at(0))?;
+                // (through `binary_op`, which gives the NULL literal the type of the other operand:
+                // `(-1 % 0) IN (1, 2)` folds to `NULL IN (1, 2)` and is NULL, not a missing kernel)
+                use crate::parser::BinaryOperator::{Eq, Or};
+                let mut in_ = expr.binary_op(&Eq, values.array_at(0))?;
                 for value in &values.arrays()[1..] {
-                    let eq = expr.eq(value)?;
-                    in_ = in_.or(&eq).unwrap();
+                    let eq = expr.binary_op(&Eq, value)?;
+                    in_ = in_.binary_op(&Or, &eq)?;
                 }
                 Ok(in_)
             }
